@@ -16,6 +16,12 @@ CHECKS = {
          "Rows updated elsewhere to a version newer than the deleted one are outside the statement. Multi-entity rooms inherit the open summary-blindness finding of C03."),
  "C17": ("repl", "exploration", "At every barrier each vocabulary token is searched on every node and compared with the node's own current text (plain query of the same node); shapes distinguish how the stored version arrived.",
          "Three open known findings: the synchronisation path and deletions never maintain the contentless full-text index; locally written, never-synchronised rows are checked in full."),
+ "C01": ("rights", "exploration", "2-4 identities and 1-2 rooms with evolving definitions; every operation shape by any identity; each API verdict compared with an independent rights model at the operation's date; a refused operation must leave the whole database (rows, references, deletion logs, daily log, room change log) unchanged; direct mutations or deletions of authorisation rows must be refused.",
+         "Rights model assumptions are listed in the evidence file. One open known finding: user admins cannot use their right (the feature is inconsistent between the local and the import path)."),
+ "C10": ("rights", "exploration", "The in-memory room of every node - live on the mutating node, imported on the others, reloaded after restart - is questioned over identities x entities x entry dates +-1 ms x {admin, member, own-rows, all-rows} and must give the decisions of the rights model; every restart must succeed.",
+         "Rooms reach importers through the real pull path (verify_room_node, add_room_node); the grid is read with the cfg-only VerifGetRoom accessor."),
+ "C12": ("rights", "exploration", "After every locally accepted data operation all peers holding the same room definitions pull until quiet and must store exactly the same rows, references and deletion records; a creation refused locally for lack of right, signed with the refused author's key, is offered to a peer through the real ingestion entry point and must be refused.",
+         "The two implementations are each other's oracle. Inherits the open summary-blindness finding for writes touching a second entity of the last day."),
  "C13": ("crash", "exploration", "One node under the batch gate and 15 writer fault points x {statement error once, sticky, crash in transaction}: every operation is entirely present or absent, acknowledged operations survive the fault and a restart, failed ones leave nothing, the log is consistent after the start-up recomputation, and a fault-free request is served after a transient error.",
          "Statement-level injection inside the real write functions (the shipped ROLLBACK handling runs; a COMMIT failure is produced for real with a deferred foreign-key violation). In-process crash = writer thread dies inside the open transaction and the node restarts on the same files; torn pages / power loss are out of reach (no VFS seam)."),
  "C18": ("crash,repl", "exploration", "Subscriber subscribed before the run; mutations, deletions, streams, room mutations and recomputation passes grouped into chosen transactions through the batch gate, plus batches ingested by real pulls: every acknowledged change must be covered by a DataChanged (room, entity, day) or RoomModified event.",
